@@ -83,3 +83,52 @@ reuse_harness!(c06_q_nn_w0_oversize_after_e, Pat::NN, 0, 0, true, 0);
 reuse_harness!(c06_t_ik_w0_oversize_and_smallbuf, Pat::IK, 0, 0, true, 30);
 reuse_harness!(c06_t_xx_w1_oversize, Pat::XX, 0, 1, true, 0);
 reuse_harness!(c06_t_kk_w1_oversize, Pat::KK, 0, 1, true, 0);
+
+/// Transport mode: two successful writes of a stateful session with ONE arbitrary other API call in between (setting
+/// the receiving nonce to any value, a read of anything, a failing write, nothing) never hand the cipher the same nonce
+/// twice - no rekey happens in between, so the key is the same and equal nonces would be (key, nonce) reuse. Role, one-way
+/// class and both starting nonces are symbolic (one step from an arbitrary transport state).
+#[kani::proof]
+#[kani::unwind(20)]
+pub fn c06_q_transport_writes_never_share_a_nonce() {
+    use snow::params::HandshakePattern;
+    use snow::verif::MAXDHLEN;
+    use snow::TransportState;
+    let initiator: bool = kani::any();
+    let oneway: bool = kani::any();
+    let n_i: u64 = kani::any();
+    let n_r: u64 = kani::any();
+    let pattern = if oneway { HandshakePattern::N } else { HandshakePattern::NN };
+    let mut ts = TransportState::verif_from_parts(Box::new(OCipher::<1>), n_i, Box::new(OCipher::<2>), n_r, pattern, 4, [0u8; MAXDHLEN], false, initiator);
+    let p1: [u8; 2] = kani::any();
+    let p2: [u8; 2] = kani::any();
+    let mut b1 = [0u8; 18];
+    let mut b2 = [0u8; 18];
+    let r1 = ts.write_message(&p1, &mut b1);
+    let op: u8 = kani::any();
+    kani::assume(op < 4);
+    match op {
+        0 => ts.set_receiving_nonce(kani::any()),
+        1 => {
+            let m: [u8; 20] = kani::any();
+            let l: usize = kani::any();
+            kani::assume(l <= 20);
+            let mut out = [0u8; 8];
+            let _ = ts.read_message(&m[..l], &mut out);
+        },
+        2 => {
+            let mut tiny = [0u8; 3];
+            let _ = ts.write_message(&p1, &mut tiny);
+        },
+        _ => {},
+    }
+    let r2 = ts.write_message(&p2, &mut b2);
+    let obj = if initiator { 1 } else { 2 };
+    kani::cover!(r1.is_ok() && r2.is_ok() && op == 0, "C06 transport harness: two successful writes reachable");
+    if r1.is_ok() && r2.is_ok() {
+        unsafe {
+            assert!(O_ENC_CALLS[obj] == 2, "C06: two successful transport writes did not produce exactly two encryptions on the sending cipher");
+            assert!(O_ENC_NONCES[obj][0] != O_ENC_NONCES[obj][1], "C06: two transport writes of a session encrypted under the same key and the same nonce");
+        }
+    }
+}
